@@ -25,7 +25,9 @@ RULE = ("money part: programs = trees over {with c: body (left normally or by an
         "drawn by Hypothesis; generic part: per case a fresh type without reference unit and sequences over {register f, "
         "register f again, remove f, remove unknown, convert} with callables answering only some unit pairs. Oracle: a "
         "Python list; registered_converters() and the outcome of convert are compared after every step; teardown "
-        "unwinds and asserts the initial state. Non-trivial = nesting depth >= 2 together with a rejected unregister or "
+        "unwinds and asserts the initial state; generic converters are plain functions, bound methods (equal, not "
+        "identical, on every access) or callable objects, and steps include sums across units (the right operand is "
+        "converted, directionally). Non-trivial = nesting depth >= 2 together with a rejected unregister or "
         "an exceptional exit (money), or a sequence with a removal followed by a conversion (generic); distinct by digest")
 
 EUR = Money.register_currency("EUR")
